@@ -54,6 +54,12 @@ class QueryBase[T](ABC):
     def _common_conditions(self):
         """Add conditions common to all queries."""
 
+        # A query object is a value: every call to `to_sql` builds its
+        # conditions and parameters from scratch (in new lists, so that results
+        # returned earlier are not changed either).
+        self._conditions = []
+        self._params = []
+
         if self.filter is not None:
             # Handle all filter conditions in one go here. The filter
             # conditions are on the flights table, which we alias as 'f' in the
